@@ -82,7 +82,7 @@ def r1_kneighbors(ctx):
     for p in ctx.paths(qn):
         if p.exit != "return":
             continue
-        one_d = p.conds and p.conds[-1][1]
+        one_d = Q.eq_truth(p, lambda c: c[3] == const(1), last=True) is True
         tag = "k=1" if one_d else "k>1"
         qs = [e.data[0] for e in p.events if e.kind == "call" and callee(e.data[0]) == ".query"]
         if len(qs) != 1:
